@@ -508,6 +508,80 @@ static void h_op(void)
     }
     esl_sq_Destroy(src); esl_sq_Destroy(dst); if (B) esl_alphabet_Destroy(B); free(b);
   }
+  else if (!strcmp(op, "sqobj")) {
+    /* one ESL_SQ with ss + extra residue markup (xr) driven through a script: d = esl_sq_Digitize(A), t = esl_sq_Textize, r = esl_sq_ReverseComplement,
+     * g = esl_sq_Grow(&nsafe), to:K = esl_sq_GrowTo(K), c:text / c:digital = esl_sq_Copy into a fresh object that replaces the current one.
+     * Markup buffers are allocated with exactly sq->salloc cells (the library's own convention), so ASan sees any access the library makes beyond them. */
+    const char *init = h_arg("init"), *via = h_arg("via"), *xra = h_arg("xr"), *scr = h_arg("script");
+    int dig = init && !strcmp(init, "digital"), add = via && !strcmp(via, "add"), x, nxr = 0; int64_t i, nss = 0;
+    unsigned char *b = h_unhex(h_arg("hex") ? h_arg("hex") : "-", &n), *ss = NULL; unsigned char *xrs[8]; ESL_SQ *sq = NULL;
+    char *out = NULL; size_t cap = 0, len = 0; char tmp[128]; int bad = 0;
+    for (i = 0; i < n; i++) if (b[i] == (dig ? 255 : 0)) bad = 1;
+    if (h_arg("ss")) { ss = h_unhex(h_arg("ss"), &nss); if (nss != n || (int64_t) strlen((char *) ss) != n) bad = 1; }
+    if (xra) {
+      char *dup = strdup(xra), *tok, *sv;
+      for (tok = strtok_r(dup, ",", &sv); tok && nxr < 8; tok = strtok_r(NULL, ",", &sv)) {
+        int64_t m; xrs[nxr] = h_unhex(tok, &m); if (m != n || (int64_t) strlen((char *) xrs[nxr]) != n) bad = 1; nxr++;
+      }
+      free(dup);
+    }
+    if (bad) { h_out("bad-op"); goto SQOBJ_DONE; }
+    if (dig) {
+      if (add) { sq = esl_sq_CreateDigital(A); for (i = 0; i < n; i++) esl_sq_XAddResidue(sq, b[i]); esl_sq_XAddResidue(sq, eslDSQ_SENTINEL); }
+      else { ESL_DSQ *d = malloc((size_t) n + 2); d[0] = d[n + 1] = eslDSQ_SENTINEL; memcpy(d + 1, b, (size_t) n); sq = esl_sq_CreateDigitalFrom(A, "x", d, n, NULL, NULL, NULL); free(d); }
+    } else {
+      if (add) { sq = esl_sq_Create(); for (i = 0; i < n; i++) esl_sq_CAddResidue(sq, (char) b[i]); esl_sq_CAddResidue(sq, 0); }
+      else sq = esl_sq_CreateFrom("x", (char *) b, NULL, NULL, NULL);
+    }
+    if (ss) { sq->ss = malloc((size_t) sq->salloc); if (dig) { sq->ss[0] = 0; strcpy(sq->ss + 1, (char *) ss); } else strcpy(sq->ss, (char *) ss); }
+    if (nxr) {
+      sq->nxr = nxr; sq->xr_tag = malloc(sizeof(char *) * nxr); sq->xr = malloc(sizeof(char *) * nxr);
+      for (x = 0; x < nxr; x++) {
+        sq->xr_tag[x] = malloc(4); sprintf(sq->xr_tag[x], "T%d", x);
+        sq->xr[x] = malloc((size_t) sq->salloc);
+        if (dig) { sq->xr[x][0] = 0; strcpy(sq->xr[x] + 1, (char *) xrs[x]); } else strcpy(sq->xr[x], (char *) xrs[x]);
+      }
+    }
+    if (scr && strcmp(scr, "-")) {
+      char *dup = strdup(scr), *tok, *sv;
+      for (tok = strtok_r(dup, ",", &sv); tok && !bad; tok = strtok_r(NULL, ",", &sv)) {
+        int st = eslOK; h_exception_seen = 0;
+        if (!strcmp(tok, "d")) { st = esl_sq_Digitize(A, sq); sprintf(tmp, "d=%s ", h_status(st)); }
+        else if (!strcmp(tok, "t")) { st = esl_sq_Textize(sq); sprintf(tmp, "t=%s ", h_status(st)); }
+        else if (!strcmp(tok, "r")) { st = esl_sq_ReverseComplement(sq); sprintf(tmp, "r=%s ", h_status(st)); }
+        else if (!strcmp(tok, "g")) { int64_t nsafe = -999; st = esl_sq_Grow(sq, &nsafe); sprintf(tmp, "g=%" PRId64 " ", nsafe); }
+        else if (!strncmp(tok, "to:", 3)) { st = esl_sq_GrowTo(sq, (int64_t) strtoll(tok + 3, NULL, 10)); sprintf(tmp, "to=%s ", h_status(st)); }
+        else if (!strcmp(tok, "c:text") || !strcmp(tok, "c:digital")) {
+          ESL_SQ *dst = !strcmp(tok, "c:digital") ? esl_sq_CreateDigital(A) : esl_sq_Create();
+          st = esl_sq_Copy(sq, dst); sprintf(tmp, "c=%s ", h_status(st));
+          esl_sq_Destroy(sq); sq = dst;
+        }
+        else sprintf(tmp, "bad ");
+        out = bufcat(out, &cap, &len, tmp);
+      }
+      free(dup);
+    }
+    sprintf(tmp, "mode=%s n=%" PRId64 " salloc=%" PRId64 " seq=", sq->seq ? "text" : "digital", sq->n, sq->salloc); out = bufcat(out, &cap, &len, tmp);
+    out = bufcat(out, &cap, &len, sq->seq ? h_hex(sq->seq, sq->n) : h_hex(sq->dsq + 1, sq->n));
+    if (sq->seq ? sq->seq[sq->n] != '\0' : (sq->dsq[0] != eslDSQ_SENTINEL || sq->dsq[sq->n + 1] != eslDSQ_SENTINEL)) out = bufcat(out, &cap, &len, "!unterminated");
+    out = bufcat(out, &cap, &len, " ss=");
+    if (!sq->ss) out = bufcat(out, &cap, &len, "null");
+    else { char *p_ = sq->seq ? sq->ss : sq->ss + 1; if (!sq->seq && sq->ss[0] != '\0') out = bufcat(out, &cap, &len, "!cell0"); out = bufcat(out, &cap, &len, h_hex(p_, (int64_t) strlen(p_))); }
+    sprintf(tmp, " nxr=%d xr=", sq->nxr); out = bufcat(out, &cap, &len, tmp);
+    if (sq->nxr == 0) out = bufcat(out, &cap, &len, (sq->xr || sq->xr_tag) ? "!dangling" : "-");
+    for (x = 0; x < sq->nxr; x++) {
+      char *p_ = sq->seq ? sq->xr[x] : sq->xr[x] + 1;
+      if (x) out = bufcat(out, &cap, &len, ",");
+      if (!sq->seq && sq->xr[x][0] != '\0') out = bufcat(out, &cap, &len, "!cell0");
+      sprintf(tmp, "T%d", x); if (!sq->xr_tag[x] || strcmp(sq->xr_tag[x], tmp)) out = bufcat(out, &cap, &len, "!tag");
+      out = bufcat(out, &cap, &len, h_hex(p_, (int64_t) strlen(p_)));
+    }
+    sprintf(tmp, " se=%" PRId64 ",%" PRId64, sq->start, sq->end); out = bufcat(out, &cap, &len, tmp);
+    h_exception_seen = 0;
+    h_out("%s", out);
+   SQOBJ_DONE:
+    if (out) free(out); if (sq) esl_sq_Destroy(sq); free(b); if (ss) free(ss); for (x = 0; x < nxr; x++) free(xrs[x]);
+  }
   else if (!strcmp(op, "dsqcpy")) {
     /* esl_abc_dsqcpy into an exact-size destination (L+2 codes) pre-filled with 0xEE */
     ESL_DSQ *cp; int st;
